@@ -14,10 +14,12 @@
 package jws
 
 import (
+	"bytes"
 	"crypto/x509"
 	"encoding/base64"
 	"encoding/json"
 	"fmt"
+	"io"
 
 	"github.com/golang-jwt/jwt/v4"
 	"github.com/notaryproject/notation-core-go/internal/timestamp"
@@ -76,9 +78,16 @@ func (e *envelope) Sign(req *signature.SignRequest) ([]byte, error) {
 	// parse payload as jwt.MapClaims
 	// [jwt-go]: https://pkg.go.dev/github.com/dgrijalva/jwt-go#MapClaims
 	var payload jwt.MapClaims
-	if err = json.Unmarshal(req.Payload.Content, &payload); err != nil {
+	decoder := json.NewDecoder(bytes.NewReader(req.Payload.Content))
+	// keep numbers as they are written instead of converting them to float64
+	decoder.UseNumber()
+	if err = decoder.Decode(&payload); err != nil {
 		return nil, &signature.InvalidSignRequestError{
 			Msg: fmt.Sprintf("payload format error: %v", err.Error())}
+	}
+	if _, err = decoder.Token(); err != io.EOF {
+		return nil, &signature.InvalidSignRequestError{
+			Msg: "payload format error: unexpected data after the top-level JSON object"}
 	}
 	if payload == nil {
 		// JSON null unmarshals into a nil map without an error
